@@ -199,6 +199,15 @@ def oracle(case, r):
     return bad[:6]
 
 
+SCALES = [(1, 1), (1, 2 ** 11), (1, 2 ** 13), (1, 2 ** 15), (1, 1000), (1, 10000), (128, 1), (1000, 1)]
+# in-place moves through the API whose exact effect on integer coordinates is known
+API_MOVES = [
+    ((0, 0, 1), (1, 4), lambda p: (-p[1], p[0], p[2])),     # quarter turn about z
+    ((1, 1, 1), (1, 3), lambda p: (p[2], p[0], p[1])),      # third of a turn about (1,1,1)
+    ((1, 0, 0), (1, 2), lambda p: (p[0], -p[1], -p[2])),    # half turn about x
+]
+
+
 def gen_cases(ctx):
     rng = ctx.rng
     n = 60 if ctx.tier == 'quick' else 1200
@@ -212,11 +221,37 @@ def gen_cases(ctx):
         kind = kinds[k % len(kinds)]
         m = c10_gen.gen_mesh(rng, kind=kind, warp=rng.choice(warps),
                              max_elems=24 if ctx.tier == 'quick' else 40)
-        cases.append({'nodes': m['nodes'], 'blocks': m['blocks'], 'meta': m['meta'], 'valid': True})
+        c = {'nodes': m['nodes'], 'blocks': m['blocks'], 'meta': m['meta'], 'valid': True}
+        # length scale: the same mesh scaled by an exact power of two / by a power of ten; facets,
+        # signs and unit normals are scale-invariant (C12_scale_covariant), so the model runs on the
+        # unscaled integer mesh
+        if k % 2 == 1:
+            sc = SCALES[1 + (k // 2) % (len(SCALES) - 1)]
+            c['scale'] = list(sc)
+            c['meta'] = dict(c['meta'], scale='%d/%d' % sc)
+        cases.append(c)
     for kind in ['hex', 'tet']:
         for aff in c10_gen.AFFINE[:3]:
             m = c10_gen.gen_mesh(rng, kind=kind, dims=(1, 1, 1), affine=aff)
             cases.append({'nodes': m['nodes'], 'blocks': m['blocks'], 'meta': m['meta'], 'valid': True})
+    # same-object stream: compute, move the mesh in place, compute again on the SAME object
+    for k in range(10 if ctx.tier == 'quick' else 120):
+        m = c10_gen.gen_mesh(rng, kind=kinds[k % 2], dims=rng.choice([(2, 1, 1), (2, 2, 1), (2, 2, 2)]),
+                             warp=rng.choice([None, 'frustum']), max_elems=16)
+        c = {'nodes': m['nodes'], 'blocks': m['blocks'], 'meta': m['meta'], 'valid': True}
+        if k % 2 == 0:
+            ax, turn, fn = API_MOVES[(k // 2) % len(API_MOVES)]
+            t = (rng.randint(-6, 6), rng.randint(-6, 6), rng.randint(-6, 6))
+            c['move'] = {'kind': 'api', 'axis': list(ax), 'turn': list(turn), 'translate': list(t)}
+            c['moved_nodes'] = [[i, [a + b for a, b in zip(fn(p), t)]] for i, p in m['nodes']]
+        else:
+            name, M = rng.choice([a for a in c10_gen.AFFINE if c10_gen.det3(*a[1]) > 0 and a[0] != 'id'])
+            t = (rng.randint(-6, 6), rng.randint(-6, 6), rng.randint(-6, 6))
+            mv = [[i, list(c10_gen.mat_apply(M, t, p))] for i, p in m['nodes']]
+            c['move'] = {'kind': 'assign', 'coords': [p for _, p in mv], 'map': name}
+            c['moved_nodes'] = mv
+        c['meta'] = dict(c['meta'], same_object=c['move']['kind'])
+        cases.append(c)
     # second stream: one inverted element — model and implementation must still agree
     for k in range(6 if ctx.tier == 'quick' else 60):
         m = c10_gen.gen_mesh(rng, kind=kinds[k % 2], dims=(2, 2, 1), invert_one=True)
@@ -224,13 +259,80 @@ def gen_cases(ctx):
         cases.append({'nodes': m['nodes'], 'blocks': m['blocks'], 'meta': m['meta'], 'valid': False})
     for i, c in enumerate(cases):
         c['id'] = i
-        c['want'] = ['incidence']
+        c['want'] = ['incidence_moved'] if 'move' in c else ['incidence']
     return cases
+
+
+def expand_moved(cases, res):
+    """a same-object case becomes two model comparisons: the first call against the
+    original coordinates, the second call (same object, moved in place) against
+    the moved coordinates; plus: second call == fresh object on the moved mesh.
+    -> list of (case id, check, detail) history failures"""
+    hist = []
+    extra = []
+    for c in cases:
+        if 'move' not in c:
+            continue
+        r = res[c['id']]
+        im = r.get('incidence_moved')
+        if im is None or c10.is_err(im):
+            r['incidence'] = im
+            continue
+        r['incidence'] = im['first']
+        # the in-place move produced the coordinates the model is evaluated on
+        exp = [p for _, p in c['moved_nodes']]
+        got = [[Fraction(*x) for x in row] for row in im['moved_xyz']]
+        if any(abs(g - e) > Fraction(1, 10 ** 9) for gr, er in zip(got, exp) for g, e in zip(gr, er)):
+            hist.append((c['id'], 'moved_coordinates', None))
+        c2 = {'id': len(cases) + len(extra), 'nodes': c['moved_nodes'], 'blocks': c['blocks'],
+              'meta': dict(c['meta'], stage='second_call_after_in_place_move', first_case=c['id']),
+              'valid': True, 'want': c['want'], 'move': c['move'], 'orig_nodes': c['nodes'],
+              'derived': True}
+        res[c2['id']] = {'id': c2['id'], 'incidence': im['second']}
+        extra.append(c2)
+        s2, fr = im['second'], im['fresh']
+        if s2['triples'] != fr['triples'] or s2['facets'] != fr['facets'] or s2['shape'] != fr['shape']:
+            hist.append((c2['id'], 'second_call_differs_from_fresh_object', 'incidence / facets'))
+        else:
+            for a, b in zip(s2['normals'], fr['normals']):
+                if any(abs(Fraction(*x) - Fraction(*y)) > Fraction(1, 10 ** 12) for x, y in zip(a, b)):
+                    hist.append((c2['id'], 'second_call_differs_from_fresh_object', 'normals'))
+                    break
+    return extra, hist
+
+
+def judge(case, r):
+    """the property on everything the implementation returned for this case
+    (single call, or the call / move in place / call history on one object)"""
+    if 'move' not in case:
+        return oracle(case, r)
+    im = r.get('incidence_moved')
+    if im is None:
+        return []
+    if c10.is_err(im):
+        return [('raises', im.get('msg'))]
+    bad = oracle(case, {'incidence': im['first']})
+    moved = dict(case, nodes=case['moved_nodes'])
+    exp = [p for _, p in case['moved_nodes']]
+    got = [[Fraction(*x) for x in row] for row in im['moved_xyz']]
+    if any(abs(g - e) > Fraction(1, 10 ** 9) for gr, er in zip(got, exp) for g, e in zip(gr, er)):
+        bad.append(('moved_coordinates', None))
+    bad += [('after_in_place_move:' + a, b) for a, b in oracle(moved, {'incidence': im['second']})]
+    s2, fr = im['second'], im['fresh']
+    if s2['triples'] != fr['triples'] or s2['facets'] != fr['facets'] or s2['shape'] != fr['shape']:
+        bad.append(('second_call_differs_from_fresh_object', 'incidence / facets'))
+    else:
+        for a, b in zip(s2['normals'], fr['normals']):
+            if any(abs(Fraction(*x) - Fraction(*y)) > Fraction(1, 10 ** 12) for x, y in zip(a, b)):
+                bad.append(('second_call_differs_from_fresh_object', 'normals'))
+                break
+    return bad[:6]
 
 
 def signature(case, check):
     return {'check': check, 'kind': case['meta'].get('kind'), 'warp': case['meta'].get('warp'),
-            'types': sorted(case['blocks'])}
+            'types': sorted(case['blocks']), 'scale': case['meta'].get('scale', '1'),
+            'history': case['meta'].get('same_object', 'single_call')}
 
 
 def shrink(ctx, case, still_fails, budget=8):
@@ -311,11 +413,15 @@ def main(ctx):
     for i, c in enumerate(cases):
         c['id'] = i
         c.setdefault('valid', True)
-        c['want'] = ['incidence']
+        c['want'] = ['incidence_moved'] if 'move' in c else ['incidence']
     res = c10.run_impl(ctx, cases)
     ctx.log(f'implementation ran on {len(cases)} meshes')
+    extra, hist = expand_moved(cases, res)
+    cases += extra
     for c in cases:
         meta = c['meta']
+        ctx.count('scale:' + str(meta.get('scale', '1')))
+        ctx.count('history:' + str(meta.get('stage', meta.get('same_object', 'single_call'))))
         ctx.count('kind:' + str(meta.get('kind')))
         ctx.count('warp:' + str(meta.get('warp')))
         ctx.count('ids:' + str(meta.get('id_mode')))
@@ -335,9 +441,9 @@ def main(ctx):
     oracle_bad = {}
     n_or = 0
     for c in cases:
-        if c['valid']:
+        if c['valid'] and not c.get('derived'):
             n_or += 1
-            b = oracle(c, res[c['id']])
+            b = judge(c, res[c['id']])
             if b:
                 oracle_bad[c['id']] = b
     ctx.notes['search_evaluations'] = n_or
@@ -356,12 +462,14 @@ def main(ctx):
         chk = bads[0][0]
 
         def still(cc, rr, chk=chk):
-            return any(b[0] == chk for b in oracle(cc, rr))
+            return any(b[0] == chk for b in judge(cc, rr))
         small = shrink(ctx, c, still)
         rr = c10.run_impl(ctx, [dict(small, id=0)], tag='shrunk')[0]
-        ob = oracle(dict(small, id=0), rr)
+        ob = judge(dict(small, id=0), rr)
         ctx.violation('impl-violation',
                       {'nodes': small['nodes'], 'blocks': small['blocks'], 'meta': c['meta'],
+                       'scale': small.get('scale'), 'move': small.get('move'),
+                       'moved_nodes': small.get('moved_nodes'),
                        'shrunk_from_elements': sum(len(v) for v in c['blocks'].values())},
                       'each cell incident to exactly its faces; interior facets two cells with opposite signs; '
                       'sign = outward orientation; sum sign*A = 0; (1/3) sum sign*A.centre = volume',
@@ -369,13 +477,15 @@ def main(ctx):
                       'C12 property oracle on the implementation', found_input=True,
                       signature=signature(c, chk), what=f'{chk} on a {c["meta"].get("kind")} mesh')
     for cid, chks in sorted(failing.items())[:6]:
-        if cid in oracle_bad:
-            continue
         c = cases[cid]
+        if cid in oracle_bad or c['meta'].get('first_case') in oracle_bad:
+            continue
         what = 'scratch file did not compile' if chks is None else ','.join(chks)
         inc = res[cid].get('incidence')
         ctx.violation('correspondence',
-                      {'nodes': c['nodes'], 'blocks': c['blocks'], 'meta': c['meta']},
+                      {'nodes': c.get('orig_nodes', c['nodes']), 'blocks': c['blocks'], 'meta': c['meta'],
+                       'scale': c.get('scale'), 'move': c.get('move'),
+                       'moved_nodes': c['nodes'] if c.get('derived') else c.get('moved_nodes')},
                       'model = implementation on ' + what,
                       {'failing_checks': chks, 'impl_error': inc if c10.is_err(inc) else None},
                       'correspondence C12 (Corr.v checks ' + what + ')', found_input=False,
@@ -401,15 +511,22 @@ def replay(path):
     ctx = lib.Ctx(PID, 'quick')
     case = {'id': 0, 'nodes': c['nodes'], 'blocks': c['blocks'], 'meta': c.get('meta', {}),
             'want': ['incidence'], 'valid': True}
+    if c.get('scale'):
+        case['scale'] = c['scale']
+    if c.get('move'):
+        case.update(move=c['move'], moved_nodes=c['moved_nodes'], want=['incidence_moved'])
     r = c10.run_impl(ctx, [case], tag='replay')[0]
-    bad = oracle(case, r)
-    print('implementation:', json.dumps(r.get('incidence'))[:1500])
+    bad = judge(case, r)
+    print('implementation:', json.dumps(r.get('incidence') or r.get('incidence_moved'))[:1500])
     print('oracle:', bad)
     ok, _, _ = lib.coq_make(['C12/Corr.vo'])
     if ok:
-        f = run_coq_cases(ctx, [case], {0: r}, 'Replay')
-        print('model vs implementation, failing checks:', f.get(0, []))
-        bad = bad or f.get(0, [])
+        cs = [case]
+        res = {0: r}
+        extra, _ = expand_moved(cs, res)
+        f = run_coq_cases(ctx, cs + extra, res, 'Replay')
+        print('model vs implementation, failing checks:', f)
+        bad = bad or [x for v in f.values() for x in (v or ['compile'])]
     print('property', 'VIOLATED' if bad else 'holds', 'on this input')
     return 1 if bad else 0
 
